@@ -251,6 +251,36 @@ func sTransferFlag(c *Ctx, rule string) {
 		}
 	}
 	c.WhoMay(rule, "write leaderState.leadershipTransferInProgress", c.P.FieldWrites(fld), map[string]string{"(*Raft).setLeadershipTransferInProgress": "the setter"})
+	// the flag is raised by the main loop itself, in the very iteration that
+	// accepts the transfer and before the worker is started: raised by another
+	// goroutine, the next iteration can still take a Restore/Apply/membership
+	// request although the hand-over has begun
+	if ll := c.P.Fn("(*Raft).leaderLoop"); ll != nil {
+		var raisers []engine.Site
+		for _, s := range c.P.CallsEverywhere(engine.Is("(*Raft).setLeadershipTransferInProgress")) {
+			if c.P.Arg(s.Instr, 0) != "false" {
+				raisers = append(raisers, s)
+			}
+		}
+		c.WhoMay(rule, "raise the leadership-transfer flag", raisers, map[string]string{"(*Raft).leaderLoop": "the main loop, synchronously in the arm that accepts the transfer"})
+		lsel := loopSelect(c, ll)
+		r := c.Run(&engine.Automaton{Fn: ll, Tracks: []engine.Track{
+			engine.Event("raised", callWithArg0(c, "(*Raft).setLeadershipTransferInProgress", "true")),
+			engine.Event("nextIteration", func(in ssa.Instruction) bool { return lsel != nil && in == ssa.Instruction(lsel) }, "raised"),
+		}})
+		n := 0
+		engine.EachInstr(ll, func(in ssa.Instruction) {
+			g, ok := in.(*ssa.Go)
+			if !ok || c.P.GoTargetName(g) != "(*Raft).leadershipTransfer" {
+				return
+			}
+			n++
+			c.RequireAt(r, rule, "leaderLoop:flag-raised-before-transfer-worker", in, "the worker is started only after setLeadershipTransferInProgress(true) ran in this iteration of the main loop", func(v engine.View) bool { return v.Seen("raised") })
+		})
+		if n != 1 {
+			c.Bad(rule, "leaderLoop:transfer-worker-start", c.P.Pos(ll.Pos()), "one start of the transfer worker", fmt.Sprintf("%d", n))
+		}
+	}
 	// every client-facing arm of the leader loop consults the flag first
 	if ll := c.Fn(rule, "(*Raft).leaderLoop"); ll != nil {
 		sel := loopSelect(c, ll)
